@@ -279,7 +279,8 @@ impl ops::Div<&Array> for &Array {
             vec![
                 if t[0] { Some(x / &c[1]) } else { None },
                 if t[1] {
-                    Some(&(&-(&c[0]) / &(c[1].powf(2.0))) * x)
+                    // -a / b^2 as -(a / b) / b: the square of a large (or small) divisor must not overflow
+                    Some(&(&-(&(&c[0] / &c[1])) / &c[1]) * x)
                 } else {
                     None
                 },
